@@ -226,6 +226,11 @@ func (i *interpreter) slice(fr *frame, x, lo, hi, max value, pos token.Pos) valu
 		Cap = cap(a)
 	}
 
+	if isStr(x) && (isSym(lo) || isSym(hi)) && max == nil {
+		if v, ok := i.symStrSlice(fr, x, lo, hi, Len, pos); ok {
+			return v
+		}
+	}
 	l := int64(0)
 	if lo != nil {
 		l = i.concInt(lo, 0, int64(Cap), pos, "slice bounds")
@@ -632,4 +637,59 @@ func (i *interpreter) choosePerm(m *omap) []int {
 		live = append(live[:k:k], live[k+1:]...)
 	}
 	return perm
+}
+
+// symStrSlice handles s[lo:hi] with symbolic bounds whose difference is a
+// constant (e.g. strconv's smallsString[i*2:i*2+2]): the result has a
+// concrete length and its bytes are symbolic-index loads.
+func (i *interpreter) symStrSlice(fr *frame, x, lo, hi value, Len int, pos token.Pos) (value, bool) {
+	if i.path == nil || i.path.concreteMode {
+		return nil, false
+	}
+	lt := toTerm64(lo, 0)
+	ht := toTerm64(hi, int64(Len))
+	diff := mk("bvsub", bvSort(64), ht, lt)
+	var d uint64
+	if diff.isConst() {
+		d = diff.val
+	} else {
+		mv, ok := i.path.evalModel(diff)
+		if !ok {
+			return nil, false
+		}
+		d = mv
+		r, _ := i.path.solver.CheckWith(false, nil, tNot(tEq(diff, mkBV(64, d))))
+		if r != "unsat" {
+			return nil, false
+		}
+	}
+	if int64(d) < 0 || int64(d) > int64(Len) {
+		return nil, false
+	}
+	// bounds: 0 <= lo && hi <= Len (hi-lo = d >= 0 already)
+	inb := tAnd(mk("bvsge", boolSort, lt, mkBV(64, 0)), mk("bvsle", boolSort, ht, mkBV(64, uint64(Len))))
+	if !i.branch(inb, pos) {
+		panic(i.runtimeError("slice bounds out of range"))
+	}
+	base := strBytes(x)
+	out := make([]value, d)
+	for k := range out {
+		idx := mk("bvadd", bvSort(64), lt, mkBV(64, uint64(k)))
+		if idx.isConst() {
+			out[k] = base[idx.val]
+			continue
+		}
+		out[k] = i.loadPtr(fr, types.Typ[types.Uint8], symptr{base: base, idx: idx}, pos)
+	}
+	return mkStr(out), true
+}
+
+func toTerm64(v value, dflt int64) *Term {
+	if v == nil {
+		return mkBV(64, uint64(dflt))
+	}
+	if t, ok := v.(*Term); ok {
+		return t
+	}
+	return mkBV(64, uint64(asInt64(v)))
 }
